@@ -156,8 +156,15 @@ pub fn micro_ceil(x: f64) -> i64 {
     ((x * 1e6).ceil()).clamp(-2.0e9, 2.0e9) as i64
 }
 
+/// number of active `catch` scopes: panics inside them are data about the code under test and
+/// are not printed; panics outside are harness bugs and are
+pub static QUIET: std::sync::atomic::AtomicUsize = std::sync::atomic::AtomicUsize::new(0);
+
 pub fn catch<T>(f: impl FnOnce() -> T + std::panic::UnwindSafe) -> Result<T, String> {
-    std::panic::catch_unwind(f).map_err(|e| {
+    QUIET.fetch_add(1, std::sync::atomic::Ordering::SeqCst);
+    let res = std::panic::catch_unwind(f);
+    QUIET.fetch_sub(1, std::sync::atomic::Ordering::SeqCst);
+    res.map_err(|e| {
         if let Some(s) = e.downcast_ref::<&str>() {
             s.to_string()
         } else if let Some(s) = e.downcast_ref::<String>() {
